@@ -1237,7 +1237,7 @@ func (fr *frame) loopHeader(b *ssa.BasicBlock, reach Term, hin Heap, ps []*ssa.B
 	if len(mods) > 0 {
 		body := naturalLoop(b)
 		for _, la := range x.localAllocs {
-			if la.alloc == nil || la.alloc.Parent() != fr.fn || body[la.alloc.Block()] || storedIn(body, la.alloc) {
+			if la.alloc == nil || la.alloc.Parent() != fr.fn || body[la.alloc.Block()] || storedIn(body, la.alloc) || capturedByClosure(la.alloc) {
 				continue
 			}
 			for _, k := range la.keys {
@@ -1301,6 +1301,19 @@ func (fr *frame) loopHeader(b *ssa.BasicBlock, reach Term, hin Heap, ps []*ssa.B
 		x.sc.assertC(implies(reach, x.evalBool(env, clauseExpr(ci))), "assume invariant "+c.Text)
 	}
 	return h
+}
+
+// capturedByClosure: the variable is captured by a function literal (whose body may assign it when called).
+func capturedByClosure(a *ssa.Alloc) bool {
+	if a.Referrers() == nil {
+		return false
+	}
+	for _, r := range *a.Referrers() {
+		if _, ok := r.(*ssa.MakeClosure); ok {
+			return true
+		}
+	}
+	return false
 }
 
 // storedIn: some store in the given blocks writes through an address rooted at the allocation.
